@@ -12,7 +12,7 @@ PID = "C02"
 LEVEL = "exploration"
 RULE = ("Hypothesis draws a series (9 classes, n 4..200, |v|<=1e4), a gap pattern (8 classes incl. all-but-k, k=0..6), "
         "one of the nine smoother configurations with generated lambda/p/srange/lc, and 2..5 placeholder encodings "
-        "(finite below/inside/above the valid data, 0, and NaN/+inf/-inf with an unrelated finite nodata for gu, pgu, "
+        "(finite below/inside/above the valid data, 0, huge finite fill values such as -3.4e38, and NaN/+inf/-inf with an unrelated finite nodata for gu, pgu, "
         "wcv, wcvp). Oracles: (1) output and lopt bit-identical across encodings; (2) the output equals the rounding "
         "(tie rule) of an independent LAPACK reference curve fitted to the valid cells only, at every cell incl. the "
         "missing ones; (3) fewer than 2 (5 for GCV) valid cells -> input returned unchanged, lopt 0. Non-trivial: "
@@ -152,6 +152,10 @@ def smoother_case(draw, variants, nmax=200, few_valid=False, gapfill=False):
     if not encs:
         v = min(y) - 1
         encs.append({"fill": v, "nodata": v, "kind": "below"})
+    if variant != "optvplc" and not gapfill and draw(st.integers(0, 2)) == 0:
+        # very large finite fill values (float rasters commonly use -3.4e38 or 1e20): still "a cell equal to nodata"
+        v = draw(st.sampled_from([-1e15, 1e20, -3.4028234663852886e38, 1e12]))
+        encs.append({"fill": v, "nodata": v, "kind": "huge"})
     if variant in smooth.NONFINITE_OK and not gapfill:
         nd = gens.placeholder_for(y, valid, "below")
         for nf in draw(st.lists(st.sampled_from(["NaN", "Infinity", "-Infinity"]), min_size=0, max_size=2, unique=True)):
